@@ -175,13 +175,13 @@ func genReject(thorough bool, bounds map[string]interface{}, cs *sink) {
 			default:
 				continue
 			}
-			cs.add(mk(sd.s[:i]+string(fl)+sd.s[i+1:]))
+			cs.add(mk(sd.s[:i] + string(fl) + sd.s[i+1:]))
 		}
 		cs.add(mk(strings.ToUpper(sd.s)), mk(strings.ToLower(sd.s)))
 		// BIP173 weakness: insert 1..4 q before a final p
 		if strings.HasSuffix(sd.s, "p") {
 			for k := 1; k <= 4; k++ {
-				cs.add(mk(sd.s[:len(sd.s)-1]+strings.Repeat("q", k)+"p"))
+				cs.add(mk(sd.s[:len(sd.s)-1] + strings.Repeat("q", k) + "p"))
 			}
 		}
 	}
